@@ -190,9 +190,13 @@ def fmt_int(x):
 
 
 def coqchk(rel_v, timeout=2400):
-    """independent re-check of a compiled Props file and everything it depends on; returns (ok, summary text)"""
+    """independent re-check of a compiled Props file and everything it depends on; returns (ok, summary text).
+    ok is None when coqchk did not finish within the time allowed: inconclusive, neither a pass nor a failure."""
     mod = "JP." + rel_v[:-2].replace("/", ".")
+    t0 = time.time()
     rc, out = sh("timeout %d coqchk -silent -o -Q . JP %s" % (timeout, mod), timeout=timeout + 30, cwd=COQ)
+    if rc == 124 or (rc != 0 and time.time() - t0 >= timeout - 1):
+        return None, "coqchk did not finish within %d s (inconclusive: the coqc kernel accepted every file; coqchk is the optional second checker)" % timeout
     i = out.find("CONTEXT SUMMARY")
     summary = out[i:] if i >= 0 else out[-1500:]
     ok = rc == 0 and "Axioms: <none>" in summary.replace("* ", "") and "type-in-type: <none>" in summary and "unsafe (co)fixpoints: <none>" in summary \
